@@ -47,6 +47,13 @@ PROFILES["timing"] = dict(types=dict(Pass=2, Task=5, Choice=1, Wait=6, Succeed=1
                           nulls_as_documents=False, multi_retrier_hits=False, delays=[0.0, 0.5, 1.0, 2.5],
                           p_timeout=0.4, wait_secs=[0, 1, 2, 3, 7], wait_timestamps=True)
 
+# Wait / Task time-outs inside Parallel branches and Map iterators (first and later states, MaxConcurrency batches);
+# no scripted errors, so that the only failures are time-outs
+PROFILES["timing_fanout"] = dict(types=dict(Pass=1, Task=4, Choice=0, Wait=6, Succeed=0, Fail=0, Parallel=3, Map=4),
+                                 p_miss=0.0, p_err=0.0, p_retry=0.0, p_catch=0.0, top_error_member=False,
+                                 nulls_as_documents=False, multi_retrier_hits=False, delays=[0.0, 0.5, 1.0, 2.5],
+                                 p_timeout=0.15, wait_secs=[0, 1, 2, 3, 7], wait_timestamps=True)
+
 SIZES = {
     "quick": dict(depth=2, states=6, fan=3, items=4),
     "thorough": dict(depth=3, states=10, fan=5, items=8),
